@@ -6,6 +6,9 @@
 //     (with unit cur_merging: merged input = the sorted union of the input files => the multiset of entries is conserved);
 //   * a GC hands the multi-builder exactly the entries whose (key, timestamp) the collector emits, adds every other entry
 //     to the discard accumulator, and loses or duplicates nothing: retained ++ discarded is a re-ordering of the input.
+//   * the WHOLE of perform_compaction and perform_garbage_collection, the loop text replaced by a call to the region
+//     function just proved: compaction_finish receives the edit and input setsum compaction_setup produced, and either
+//     (zero discard, files = the merged inputs) or, bottom level only, (files = what the collector retains, discard = the rest).
 // SstMultiBuilder::put/del append the entry to its output: contract PROVED in unit sst_multi (blocks: units sst_blockb/sst_block);
 // the three-statement setsum update is read as `discard += setsum(entry)`; KeyRef ordering as proved in sst_kernels.
 use vstd::prelude::*;
@@ -293,15 +296,139 @@ fn gc_copy<C: Cursor>(cursor: &mut C, gc: &mut Gc, sstmb: &mut SstMultiBuilder) 
 // preconditions: perform_garbage_collection is entered only with upper_level == NUM_LEVELS - 1.
 #[verifier::external_body]
 struct LsmTree { _p: u8 }
+// ---- the whole of perform_compaction / perform_garbage_collection: the copy loops are the region functions above (their
+// text is replaced by a call to them), everything around them is stubbed by contract; what is decided here is the GLUE:
+// that the edit, the input setsum, the cursor over the merged inputs, the discard and the output files reach
+// compaction_finish unchanged, so that -- with the contracts of the loops -- a compaction hands compaction_finish files
+// that hold exactly the merged inputs (discard zero), and a garbage collection files that hold exactly what the collector
+// retains together with a discard made of exactly the rest.
+#[verifier::external_body]
+struct Edit { _p: u8 }
+impl Edit {
+    #[verifier::external_body]
+    fn default() -> (r: Edit) { unimplemented!() }
+}
+#[verifier::external_body]
+struct DirPath { _p: u8 }
+impl DirPath {
+    #[verifier::external_body]
+    fn clone(&self) -> (r: DirPath) { unimplemented!() }
+}
+#[verifier::external_body]
+struct Paths { _p: u8 }
+impl Paths { uninterp spec fn content(&self) -> Seq<Ent>; }
+impl SstMultiBuilder {
+    // Builder::seal (unit sst_multi): the files handed back hold exactly what was accepted
+    #[verifier::external_body]
+    fn seal(self) -> (r: Result<Paths, SError>)
+        ensures r is Ok ==> r->Ok_0.content() == self.out(),
+    { unimplemented!() }
+}
+// MergingCursor<SstCursor> over the input files (C11: the sorted union of the inputs)
+#[verifier::external_body]
+struct MCursor { _p: u8 }
+uninterp spec fn mc_ents(c: MCursor) -> Seq<Ent>;
+uninterp spec fn mc_pos(c: MCursor) -> int;
+uninterp spec fn mc_wf_base(c: MCursor) -> bool;
+uninterp spec fn mc_wf(c: MCursor) -> bool;
+uninterp spec fn mc_key(c: MCursor) -> Option<(Seq<u8>, u64)>;
+uninterp spec fn mc_val(c: MCursor) -> Option<Seq<u8>>;
+impl Cursor for MCursor {
+    spec fn ents(&self) -> Seq<Ent> { mc_ents(*self) }
+    spec fn pos(&self) -> int { mc_pos(*self) }
+    spec fn wf_base(&self) -> bool { mc_wf_base(*self) }
+    spec fn wf(&self) -> bool { mc_wf(*self) }
+    spec fn key_spec(&self) -> Option<(Seq<u8>, u64)> { mc_key(*self) }
+    spec fn val_spec(&self) -> Option<Seq<u8>> { mc_val(*self) }
+    #[verifier::external_body]
+    proof fn lemma_cursor_laws(&self) { }
+    #[verifier::external_body]
+    fn seek_to_first(&mut self) -> Result<(), SError> { unimplemented!() }
+    #[verifier::external_body]
+    fn seek_to_last(&mut self) -> Result<(), SError> { unimplemented!() }
+    #[verifier::external_body]
+    fn seek(&mut self, key: &[u8]) -> Result<(), SError> { unimplemented!() }
+    #[verifier::external_body]
+    fn prev(&mut self) -> Result<(), SError> { unimplemented!() }
+    #[verifier::external_body]
+    fn next(&mut self) -> Result<(), SError> { unimplemented!() }
+    #[verifier::external_body]
+    fn key(&self) -> Option<KeyRef<'_>> { unimplemented!() }
+    #[verifier::external_body]
+    fn value(&self) -> Option<&[u8]> { unimplemented!() }
+}
+// what compaction_setup establishes between the compaction, the edit and the setsum it returns (unit lsmtk_balance:
+// every input removed by the edit, the setsum is their sum), and the entries of the inputs
+uninterp spec fn setup_ok(c: Compaction, e: Edit, s: Setsum) -> bool;
+uninterp spec fn inputs_ents(c: Compaction) -> Seq<Ent>;
+// what the configured policy retains of a table (the collector's emissions: unit sst_gc)
+uninterp spec fn gc_plan(e: Seq<Ent>) -> Seq<KT>;
+impl Setsum {
+    uninterp spec fn is_zero(&self) -> bool;
+    #[verifier::external_body]
+    fn default() -> (r: Setsum) ensures r.is_zero() { unimplemented!() }
+}
+impl Discard {
+    // the accumulated discard as the setsum handed to compaction_finish
+    uninterp spec fn of(s: Setsum) -> Seq<Ent>;
+}
 impl LsmTree {
     #[verifier::external_body]
     fn apply_moving_compaction(&self, compaction: Compaction, output: Setsum) -> (r: Result<(), SError>)
         requires compaction.n_inputs() == 1,
     { unimplemented!() }
     #[verifier::external_body]
-    fn perform_garbage_collection(&self, compaction: Compaction) -> (r: Result<(), SError>)
-        requires compaction.core.upper_level == NUM_LEVELS - 1,
+    fn compaction_setup(&self, compaction: &Compaction, mani_edit: &mut Edit) -> (r: Result<(Setsum, MCursor, DirPath), SError>)
+        ensures r is Ok ==> setup_ok(*compaction, *final(mani_edit), r->Ok_0.0) && r->Ok_0.1.wf_base() && r->Ok_0.1.ents() == inputs_ents(*compaction),
     { unimplemented!() }
+    // `let version = self.take_snapshot(); let mut split_hint = SplitHint::new(version.version.clone());`
+    #[verifier::external_body]
+    fn new_split_hint(&self) -> (r: SplitHint) { unimplemented!() }
+    // `SstMultiBuilder::new(compaction_dir.clone(), ".sst".to_string(), self.options.sst.clone())` (unit sst_multi)
+    #[verifier::external_body]
+    fn new_multi_builder(&self, dir: DirPath) -> (r: SstMultiBuilder) ensures r.out() == Seq::<Ent>::empty() { unimplemented!() }
+    // `let mut gc_cursor = cursor.clone(); gc_cursor.next()?; self.options.gc_policy.collector(gc_cursor, 0)?`
+    #[verifier::external_body]
+    fn new_collector(&self, cursor: &MCursor) -> (r: Result<Gc, SError>)
+        ensures r is Ok ==> r->Ok_0.rest() == gc_plan(cursor.ents()),
+    { unimplemented!() }
+    // compaction_finish: what it may assume of its arguments (unit lsmtk_balance carries on from setup_ok)
+    #[verifier::external_body]
+    fn compaction_finish(&self, compaction: Compaction, compaction_dir: DirPath, paths: Paths, input_setsum: Setsum, discard_setsum: Setsum, mani_edit: Edit) -> (r: Result<(), SError>)
+        requires setup_ok(compaction, mani_edit, input_setsum),
+            // the output files and the discard account for the inputs: nothing else is written, nothing else is dropped
+            // either a plain compaction: the files hold exactly the merged inputs and nothing is discarded ...
+            (discard_setsum.is_zero() && paths.content() == inputs_ents(compaction))
+            // ... or a garbage collection of the bottom level: the files hold what the policy retains, the discard is the rest
+            || (compaction.core.upper_level == NUM_LEVELS - 1
+                && paths.content() == kept(inputs_ents(compaction), 0, gc_plan(inputs_ents(compaction)))
+                && Discard::of(discard_setsum) == dropped(inputs_ents(compaction), 0, gc_plan(inputs_ents(compaction)))),
+    { unimplemented!() }
+
+//@ extract lsmtk/src/tree/mod.rs | impl LsmTree :: fn perform_compaction
+//@ ret r
+//@ rewrite X13 `compaction.inputs().count()` => `compaction.inputs_len()`
+//@ rewrite X13 `compaction.inputs().next().unwrap()` => `compaction.input(0)`
+//@ rewrite-re X7 `let version = self\.take_snapshot\(\);` => `let version = ();`
+//@ rewrite-re X7 `SplitHint::new\(version\.version\.clone\(\)\)` => `self.new_split_hint()`
+//@ rewrite-re X7 `(?s)SstMultiBuilder::new\(\s*compaction_dir\.clone\(\),\s*"\.sst"\.to_string\(\),\s*self\.options\.sst\.clone\(\),\s*\)` => `self.new_multi_builder(compaction_dir.clone())`
+//@ rewrite-re X16 `(?s)'looping: loop \{.*?\n        \}\n        drop\(cursor\);` => `compaction_copy(&mut cursor, &mut sstmb, &compaction, &mut split_hint)?;`
+//@ end
+
+//@ extract lsmtk/src/tree/mod.rs | impl LsmTree :: fn perform_garbage_collection
+//@ ret r
+//@ rewrite-re X7 `let mut gc_cursor = cursor\.clone\(\);\s*gc_cursor\.next\(\)\?;\s*let mut gc = self\.options\.gc_policy\.collector\(gc_cursor, 0\)\?;` => `let mut gc = self.new_collector(&cursor)?;`
+//@ rewrite-re X7 `(?s)SstMultiBuilder::new\(\s*compaction_dir\.clone\(\),\s*"\.sst"\.to_string\(\),\s*self\.options\.sst\.clone\(\),\s*\)` => `self.new_multi_builder(compaction_dir.clone())`
+//@ rewrite-re X16 `(?s)let mut gc_next = gc\.next\(\)\?;.*?\n        \}\n        drop\(cursor\);` => `let discard = gc_copy(&mut cursor, &mut gc, &mut sstmb)?.into_setsum();`
+//@ pre <<
+        compaction.core.upper_level == NUM_LEVELS - 1,
+//@ >>
+//@ end
+}
+impl Discard {
+    // `discard` (a setsum::Setsum accumulated entry by entry) as handed on
+    #[verifier::external_body]
+    fn into_setsum(self) -> (r: Setsum) ensures Discard::of(r) == self.items() { unimplemented!() }
 }
 //@ extract lsmtk/src/tree/mod.rs | impl LsmTree :: fn perform_compaction
 //@ region `if compaction.inputs_len()` .. `compaction.top_level()`
@@ -317,6 +444,6 @@ fn compaction_dispatch(tree: &LsmTree, compaction: Compaction) -> (r: Result<(),
 //@ end
 
 //@ contract-lemma lemma_conserved
-//@ min-verified 5
+//@ min-verified 7
 } // verus!
 fn main() {}
